@@ -511,8 +511,8 @@ fn column(t: Ty, vals: &[&V]) -> ArrayRef {
 fn arrow_ty(t: Ty) -> DataType { match t { Ty::Int | Ty::Rat => DataType::Int64, Ty::Bool => DataType::Boolean, Ty::Str => DataType::Utf8 } }
 
 /// write table `name` as a directory of parquet files (one per partition) under `dir`
-fn write_table(dir: &str, name: &str, t: &Tab) -> String {
-    let schema = Arc::new(Schema::new(t.types.iter().enumerate().map(|(i, ty)| Field::new(format!("c{i}"), arrow_ty(*ty), true)).collect::<Vec<_>>()));
+fn write_table(dir: &str, name: &str, t: &Tab, cols: Option<&[&str]>) -> String {
+    let schema = Arc::new(Schema::new(t.types.iter().enumerate().map(|(i, ty)| Field::new(cols.map(|c| c[i].to_string()).unwrap_or(format!("c{i}")), arrow_ty(*ty), true)).collect::<Vec<_>>()));
     let tdir = format!("{dir}/{name}");
     std::fs::create_dir_all(&tdir).unwrap();
     for p in 0..t.parts {
@@ -543,18 +543,51 @@ fn rows_of(batches: &[RecordBatch]) -> Vec<String> {
     rows
 }
 
-struct PlanOut { stage: &'static str, ok: bool, skipped: Option<String>, why: Option<String>, text: String, bytes: usize, rows: i64 }
+
+/// first place where two plans with the same text differ structurally (for the report)
+fn diff_plans(a: &LogicalPlan, b: &LogicalPlan) -> String {
+    if std::mem::discriminant(a) != std::mem::discriminant(b) { return format!("node kinds differ: {} vs {}", dbg_kind(a), dbg_kind(b)); }
+    let (ea, eb) = (a.expressions(), b.expressions());
+    for (x, y) in ea.iter().zip(eb.iter()) {
+        if x != y { let (dx, dy) = (format!("{x:?}"), format!("{y:?}")); return format!("expression of {} differs: {} vs {}", kind_name(&format!("{}", a.display())), &dx[..dx.len().min(500)], &dy[..dy.len().min(500)]); }
+    }
+    if ea.len() != eb.len() { return format!("{}: number of expressions differs", dbg_kind(a)); }
+    let (ia, ib) = (a.inputs(), b.inputs());
+    for (x, y) in ia.iter().zip(ib.iter()) { if x != y { return diff_plans(x, y); } }
+    if a.schema() != b.schema() { return format!("schema of {} differs: {:?} vs {:?}", kind_name(&format!("{}", a.display())), a.schema(), b.schema()); }
+    match (a, b) {
+        (LogicalPlan::Explain(x), LogicalPlan::Explain(y)) => {
+            if x.stringified_plans != y.stringified_plans {
+                let k = x.stringified_plans.iter().zip(y.stringified_plans.iter()).position(|(u, v)| u != v);
+                return match k {
+                    Some(k) => format!("Explain.stringified_plans[{k}] differs: {:?} vs {:?} ({} vs {} entries)", x.stringified_plans[k], y.stringified_plans[k], x.stringified_plans.len(), y.stringified_plans.len()),
+                    None => format!("Explain.stringified_plans: {} entries vs {} entries", x.stringified_plans.len(), y.stringified_plans.len()),
+                };
+            }
+            if x.logical_optimization_succeeded != y.logical_optimization_succeeded { return format!("Explain.logical_optimization_succeeded differs: {} vs {}", x.logical_optimization_succeeded, y.logical_optimization_succeeded); }
+            if x.verbose != y.verbose { return "Explain.verbose differs".into(); }
+            format!("Explain differs in another field (explain_format {:?} vs {:?})", x.explain_format, y.explain_format)
+        }
+        _ => format!("node {} differs in a field that is neither an expression, an input nor the schema", kind_name(&format!("{}", a.display()))),
+    }
+}
+
+struct PlanOut { stage: &'static str, ok: bool, skipped: Option<String>, why: Option<String>, text: String, bytes: usize, rows: i64, diff: Option<Vec<(String, String)>> }
 
 async fn check_plan(ctx: &SessionContext, fresh: &SessionContext, stage: &'static str, p: &LogicalPlan, exec: bool) -> PlanOut {
     let text = format!("{}", p.display_indent_schema());
-    let mut out = PlanOut { stage, ok: true, skipped: None, why: None, text: text.clone(), bytes: 0, rows: -1 };
+    let mut out = PlanOut { stage, ok: true, skipped: None, why: None, text: text.clone(), bytes: 0, rows: -1, diff: None };
     let bytes = match logical_plan_to_bytes(p) { Ok(b) => b, Err(e) => { out.skipped = Some(format!("encoding failed: {e}")); return out; } };
     out.bytes = bytes.len();
     let fail = |o: &mut PlanOut, w: String| { if o.ok { o.ok = false; o.why = Some(w); } };
     let back = match logical_plan_from_bytes(&bytes, fresh.task_ctx().as_ref()) { Ok(b) => b, Err(e) => { fail(&mut out, format!("decoding failed: {e}")); return out; } };
     let t2 = format!("{}", back.display_indent_schema());
-    if t2 != text { fail(&mut out, format!("display_indent_schema differs after the round trip:\n{t2}")); }
-    else if back != *p { fail(&mut out, "decoded plan has the same text but is not PartialEq-equal to the original".to_string()); }
+    if t2 != text {
+        let (la, lb): (Vec<&str>, Vec<&str>) = (text.lines().collect(), t2.lines().collect());
+        if la.len() == lb.len() { out.diff = Some(la.iter().zip(lb.iter()).filter(|(x, y)| x != y).take(12).map(|(x, y)| (x.trim_start().to_string(), y.trim_start().to_string())).collect()); }
+        fail(&mut out, format!("display_indent_schema differs after the round trip:\n{t2}"));
+    }
+    else if back != *p { let d = diff_plans(p, &back); fail(&mut out, format!("decoded plan has the same text but is not PartialEq-equal to the original: {d}")); }
     else if format!("{back:?}") != format!("{p:?}") { fail(&mut out, "decoded plan has a different Debug text".to_string()); }
     // JSON form
     match logical_plan_to_json(p) {
@@ -585,9 +618,9 @@ async fn check_plan(ctx: &SessionContext, fresh: &SessionContext, stage: &'stati
 fn corpus() -> Vec<(&'static str, bool)> {
     // over a(x BIGINT, y BIGINT, s VARCHAR, b BOOLEAN) and b(x BIGINT, z BIGINT, s VARCHAR); (sql, execute?)
     vec![
-        ("SELECT x, sum(y) OVER (PARTITION BY b ORDER BY x ROWS BETWEEN 1 PRECEDING AND 1 FOLLOWING) FROM a", true),
+        ("SELECT x, sum(y) OVER (PARTITION BY b ORDER BY x, y ROWS BETWEEN 1 PRECEDING AND 1 FOLLOWING) FROM a", true),
         ("SELECT x, count(*) OVER (ORDER BY x RANGE BETWEEN 2 PRECEDING AND CURRENT ROW), row_number() OVER (ORDER BY x DESC NULLS LAST, y) FROM a", true),
-        ("SELECT x, min(y) OVER (ORDER BY x GROUPS BETWEEN UNBOUNDED PRECEDING AND 1 FOLLOWING), lag(y, 1) IGNORE NULLS OVER (ORDER BY x) FROM a", true),
+        ("SELECT x, min(y) OVER (ORDER BY x GROUPS BETWEEN UNBOUNDED PRECEDING AND 1 FOLLOWING), lag(y, 1) IGNORE NULLS OVER (ORDER BY x, y) FROM a", true),
         ("SELECT first_value(y) RESPECT NULLS OVER (PARTITION BY s ORDER BY x), last_value(y) OVER (PARTITION BY s ORDER BY x ROWS BETWEEN UNBOUNDED PRECEDING AND UNBOUNDED FOLLOWING) FROM a", true),
         ("SELECT unnest(make_array(x, y, 7)) AS u, s FROM a", true),
         ("SELECT unnest(make_array(make_array(x), make_array(y, 1))) FROM a", true),
@@ -615,13 +648,15 @@ fn corpus() -> Vec<(&'static str, bool)> {
         ("SELECT DISTINCT ON (s) s, x FROM a ORDER BY s, x DESC", true),
         ("SELECT x FROM a ORDER BY x DESC NULLS FIRST LIMIT 3 OFFSET 1", true),
         ("SELECT x FROM a LIMIT 0", true),
+        ("SELECT x FROM a ORDER BY x LIMIT 3 OFFSET 0", true),
+        ("((SELECT x AS r0, y AS r1 FROM a) INTERSECT ALL (SELECT x AS r0, z AS r1 FROM b)) UNION (SELECT x AS r0, y AS r1 FROM a WHERE FALSE)", true),
         ("SELECT CASE WHEN x > 1 THEN 'big' WHEN x IS NULL THEN NULL ELSE 'small' END, CAST(x AS INT), TRY_CAST(s AS DOUBLE), x BETWEEN 1 AND 2, s LIKE 'a%' ESCAPE '!', s ILIKE '_b', s SIMILAR TO 'a+', -x, NOT b FROM a", true),
-        ("SELECT x IN (1, 2, NULL), x NOT IN (3), b IS TRUE, b IS NOT FALSE, b IS UNKNOWN, s || 'z', x & 3, x | 1, x # 2, x << 1, x >> 1, x % 2, x / 2 FROM a", true),
+        ("SELECT x IN (1, 2, NULL), x NOT IN (3), b IS TRUE, b IS NOT FALSE, b IS UNKNOWN, s || 'z', x & 3, x | 1, x ^ 2, x << 1, x >> 1, x % 2, x / 2 FROM a", true),
         ("SELECT abs(x), coalesce(s, 'none'), nullif(x, 1), date_trunc('day', TIMESTAMP '2024-01-02 03:04:05'), INTERVAL '1' DAY, DATE '2020-02-29', 1.5e0, DECIMAL '1.25' FROM a", true),
         ("SELECT * FROM (VALUES (1, 'a'), (2, NULL)) AS v(k, t)", true),
         ("SELECT t.* FROM a AS t WHERE t.x = 1", true),
         ("SELECT x AS \"Weird Name\", y \"select\" FROM a", true),
-        ("SELECT array_agg(x ORDER BY y DESC), string_agg(s, ',') FROM a", true),
+        ("SELECT array_agg(x ORDER BY y DESC), string_agg(s, ',' ORDER BY x, y) FROM a", true),
         ("SELECT sum(x) FILTER (WHERE b), count(*) FILTER (WHERE y > 0) FROM a", true),
         ("SELECT $1 + x FROM a", false),
         ("PREPARE p(BIGINT) AS SELECT x FROM a WHERE x = $1", false),
@@ -683,7 +718,8 @@ fn print_plan_case(id: &str, stream: &str, sql: &str, tp: usize, outs: &[PlanOut
     let ok = outs.iter().all(|o| o.ok);
     let stages: Vec<String> = outs.iter().map(|o| {
         let mut t = o.text.clone(); if t.len() > 1500 { t.truncate(1500); t.push_str("..."); }
-        format!("{{\"stage\":\"{}\",\"ok\":{},\"bytes\":{},\"rows\":{},\"skipped\":{},\"why\":{},\"plan\":{}}}", o.stage, o.ok, o.bytes, o.rows,
+        let diff = match &o.diff { Some(d) => format!("[{}]", d.iter().map(|(x, y)| format!("[{},{}]", json_str(&x[..x.len().min(1200)]), json_str(&y[..y.len().min(1200)]))).collect::<Vec<_>>().join(",")), None => "null".into() };
+        format!("{{\"stage\":\"{}\",\"ok\":{},\"bytes\":{},\"rows\":{},\"diff\":{diff},\"skipped\":{},\"why\":{},\"plan\":{}}}", o.stage, o.ok, o.bytes, o.rows,
             o.skipped.as_ref().map(|s| json_str(&s[..s.len().min(300)])).unwrap_or("null".into()),
             o.why.as_ref().map(|s| json_str(&s[..s.len().min(1500)])).unwrap_or("null".into()), if o.ok && o.skipped.is_none() { "null".to_string() } else { json_str(&t) })
     }).collect();
@@ -740,7 +776,7 @@ fn main() {
 
     // fixed tables + corpus
     let ft = fixed_tables();
-    let fdirs: Vec<(String, String)> = vec![("a".to_string(), write_table(&dir, "fixed_a", &ft[0])), ("b".to_string(), write_table(&dir, "fixed_b", &ft[1]))];
+    let fdirs: Vec<(String, String)> = vec![("a".to_string(), write_table(&dir, "fixed_a", &ft[0], Some(&["x", "y", "s", "b"]))), ("b".to_string(), write_table(&dir, "fixed_b", &ft[1], Some(&["x", "z", "s"])))];
     for (k, (sql, exec)) in corpus().into_iter().enumerate() {
         run_plan_case(fdirs.clone(), 1 + k % 3, format!("corpus-{k}"), "corpus".into(), sql.to_string(), exec);
     }
@@ -751,7 +787,7 @@ fn main() {
         let tp = 1 + rng.below(3) as usize;
         let (q, widths) = { let mut g = Gen { rng: &mut rng, tabs: tabs.clone() }; let q = g.query(stream); (q, g.tab_widths()) };
         let sql = to_sql(&q, &widths);
-        let dirs: Vec<(String, String)> = tabs.iter().enumerate().map(|(i, t)| (format!("t{i}"), write_table(&dir, &format!("g{cid}_t{i}"), t))).collect();
+        let dirs: Vec<(String, String)> = tabs.iter().enumerate().map(|(i, t)| (format!("t{i}"), write_table(&dir, &format!("g{cid}_t{i}"), t, None))).collect();
         run_plan_case(dirs, tp, format!("gen-{cid}"), stream.to_string(), sql, true);
     }
     let _ = std::fs::remove_dir_all(&dir);
